@@ -347,15 +347,67 @@ func (s *Sched) finish(o Outcome) {
 	close(s.done)
 }
 
+// timers are kept in a binary heap ordered by (at, seq); stopped timers are dropped lazily.
+//
+//go:norace
+func (s *Sched) timerLess(i, j int) bool {
+	a, b := s.timers[i], s.timers[j]
+	return a.at < b.at || (a.at == b.at && a.seq < b.seq)
+}
+
+//go:norace
+func (s *Sched) timerPush(tm *Timer) {
+	s.timers = append(s.timers, tm)
+	i := len(s.timers) - 1
+	for i > 0 {
+		p := (i - 1) / 2
+		if !s.timerLess(i, p) {
+			break
+		}
+		s.timers[i], s.timers[p] = s.timers[p], s.timers[i]
+		i = p
+	}
+}
+
+//go:norace
+func (s *Sched) timerPop() {
+	n := len(s.timers) - 1
+	s.timers[0] = s.timers[n]
+	s.timers[n] = nil
+	s.timers = s.timers[:n]
+	i := 0
+	for {
+		l, r, m := 2*i+1, 2*i+2, i
+		if l < n && s.timerLess(l, m) {
+			m = l
+		}
+		if r < n && s.timerLess(r, m) {
+			m = r
+		}
+		if m == i {
+			break
+		}
+		s.timers[i], s.timers[m] = s.timers[m], s.timers[i]
+		i = m
+	}
+}
+
+//go:norace
+func (s *Sched) timerTop() *Timer {
+	for len(s.timers) > 0 && (s.timers[0].stopped || s.timers[0].fired) {
+		s.timerPop()
+	}
+	if len(s.timers) == 0 {
+		return nil
+	}
+	return s.timers[0]
+}
+
 //go:norace
 func (s *Sched) nextEvent() int64 {
 	next := int64(-1)
-	for _, tm := range s.timers {
-		if !tm.stopped && !tm.fired {
-			if next < 0 || tm.at < next {
-				next = tm.at
-			}
-		}
+	if tm := s.timerTop(); tm != nil {
+		next = tm.at
 	}
 	for _, t := range s.threads {
 		if t.st == tsBlocked && t.deadline >= 0 {
@@ -370,31 +422,13 @@ func (s *Sched) nextEvent() int64 {
 //go:norace
 func (s *Sched) fireDue() {
 	for {
-		var best *Timer
-		for _, tm := range s.timers {
-			if tm.stopped || tm.fired || tm.at > s.now {
-				continue
-			}
-			if best == nil || tm.at < best.at || (tm.at == best.at && tm.seq < best.seq) {
-				best = tm
-			}
+		tm := s.timerTop()
+		if tm == nil || tm.at > s.now {
+			return
 		}
-		if best == nil {
-			break
-		}
-		best.fired = true
-		best.f.Fire()
-	}
-	// compact occasionally
-	if len(s.timers) > 64 {
-		j := 0
-		for _, tm := range s.timers {
-			if !tm.stopped && !tm.fired {
-				s.timers[j] = tm
-				j++
-			}
-		}
-		s.timers = s.timers[:j]
+		s.timerPop()
+		tm.fired = true
+		tm.f.Fire()
 	}
 }
 
@@ -660,7 +694,7 @@ func AddTimer(at int64, f Firer) *Timer {
 	}
 	s.tseq++
 	tm := &Timer{at: at, seq: s.tseq, f: f}
-	s.timers = append(s.timers, tm)
+	s.timerPush(tm)
 	return tm
 }
 
